@@ -6,17 +6,17 @@ EXTENDS TraceKit, Cli
 Check(e) ==
     LET o == e.opts IN
     IF Rejected(o)
-    THEN Fails(<< <<"CLI conflicting options are rejected", e.failed>>,
-                  <<"CLI nothing is computed or written after a rejection", ~e.computed /\ e.files = <<>> >> >>)
-    ELSE Fails(<< <<"CLI a consistent invocation succeeds", ~e.failed /\ e.computed>>,
-                  <<"CLI thrown events: the count argument overrides the file, 0 / absent keeps it", e.thrown = EffThrown(o, e.fileThrown)>>,
-                  <<"CLI spectrum: option overrides the file", e.spectrum = EffSpectrum(o)>>,
-                  <<"CLI cloud model: option overrides the file", e.cloud = EffCloud(o)>>,
-                  <<"CLI write_stages is passed through", e.writeStages = o.w>>,
-                  <<"CLI output path: the -o value or the default nuspacesim_run_<timestamp>.fits", e.path = OutPath(o)>>,
-                  <<"CLI the results file exists unless --no-result-file (the staged file still exists with -w)",
+    THEN Fails(<< <<"EXT: CLI conflicting options are rejected", e.failed>>,
+                  <<"EXT: CLI nothing is computed or written after a rejection", ~e.computed /\ e.files = <<>> >> >>)
+    ELSE Fails(<< <<"EXT: CLI a consistent invocation succeeds", ~e.failed /\ e.computed>>,
+                  <<"EXT: CLI thrown events: the count argument overrides the file, 0 / absent keeps it", e.thrown = EffThrown(o, e.fileThrown)>>,
+                  <<"EXT: CLI spectrum: option overrides the file", e.spectrum = EffSpectrum(o)>>,
+                  <<"EXT: CLI cloud model: option overrides the file", e.cloud = EffCloud(o)>>,
+                  <<"EXT: CLI write_stages is passed through", e.writeStages = o.w>>,
+                  <<"EXT: CLI output path: the -o value or the default nuspacesim_run_<timestamp>.fits", e.path = OutPath(o)>>,
+                  <<"EXT: CLI the results file exists unless --no-result-file (the staged file still exists with -w)",
                     (e.files # <<>>) <=> (~o.n \/ o.w)>>,
-                  <<"CLI only the output path is written", Len(e.files) <= 1 /\ \A k \in 1..Len(e.files) : e.files[k] = OutPath(o)>> >>)
+                  <<"EXT: CLI only the output path is written", Len(e.files) <= 1 /\ \A k \in 1..Len(e.files) : e.files[k] = OutPath(o)>> >>)
 
 CONSTANTS Options, FileThrown
 TInit == TKInit /\ opts = [count |-> 0] /\ phase = "start" /\ passed = [thrown |-> 0] /\ files = {}
